@@ -74,10 +74,16 @@ def body(e, L, cfg):
         ref = oracles.vt_terms(codes, nvt)
         accept = z3.And(walk, pure, z3.And([a == b for a, b in zip(ref, chk_codes)]))
     acc = g.accessor()
+    # history: an earlier decode on a DIFFERENT graph of the same order must not influence this one (caches keyed by size / vertex)
+    try:
+        L.decode(strs.K("AC"), 4, L.get_complete_accessor(cfg["k"]), 0, is_faster=fast)
+    except Exception:
+        pass
 
     def cex(m):
         c = c05.dec_cex(m, g, start, None, codes, cfg, oracles.model_string(m, chk_codes) if nvt else None)
         c["check_value"] = False
+        c["warmup"] = True
         return c
     try:
         out = L.decode(s, Lb, acc, SymInt(start), is_faster=fast, vt_check=chk)
